@@ -15,7 +15,7 @@ bin/refactor -dir $D/wt -mode $MODE || { git -C /repo worktree remove --force $D
 ids="$@"; [ -z "$ids" ] && ids=$(python3 -c "import json;print(' '.join(c['property_id'] for c in json.load(open('MANIFEST.json'))['checks']))")
 rc=0
 for id in $ids; do
-  out=$(bin/notacheck -property $id -repo $D/wt -no-evidence 2>&1); r=$?
+  out=$(${NOTACHECK:-bin/notacheck} -property $id -repo $D/wt -no-evidence 2>&1); r=$?
   if [ $r -ne 0 ]; then rc=1; echo "FALSE ALARM $MODE $id:"; echo "$out" | grep -E -A3 '^\s+\[(VIOLATED|UNDECIDED)\]' | cut -c1-400 | head -${LINES_MAX:-40}; else echo "$MODE $id silent"; fi
 done
 if [ -n "$KEEP" ]; then echo "kept $D/wt"; else git -C /repo worktree remove --force $D/wt; rm -rf $D; fi
